@@ -435,6 +435,10 @@ func (s *Seq) checkUUIDAfterWrite(o *shapes.Rec, lid int) {
 func (s *Seq) opSave(op *Op) {
 	o := s.build(op.Lid, op.Rec, op.NaN)
 	exp, classes := s.expectWrite(s.M, o, op.NaN)
+	if _, known := s.M.UUID[op.Lid]; !known && op.Flag {
+		o.Initialize(fmt.Sprintf("ABCDEF%02X-0A0B-4C0D-8E0F-%012d", op.Lid%256, op.Lid))
+		s.stat("probe:caller-chosen-uuid")
+	}
 	s.hookBegin()
 	err := s.db.InsertOrUpdate(o)
 	accepted := s.judgeWrite(fmt.Sprintf("InsertOrUpdate(lid=%d)", op.Lid), classes, err)
